@@ -8,7 +8,7 @@ CONSTANTS
   AllowExcl = FALSE
   AllowCat3 = FALSE
   AllowReuse = TRUE
-  Extras = FALSE
+  Extras = "no"
   AllowFindings = FALSE
 INVARIANT InvToldIsActual
 INVARIANT InvAddAligned
